@@ -216,8 +216,36 @@ func c05CheckDecrypt(c c05DecCase, st *stats.Run) error {
 		if !bytes.Equal(got, plain) {
 			return pbt.Failf("C05/reference-file-wrong-plaintext", "reference-written file decrypts to different bytes for %s", r)
 		}
+		// the same identity at the end of a key ring of keys of every type that the file is not addressed to
+		ring := append(c05Foreign(p, c.Recs), p.Identity(r))
+		got, err, _ = decryptLib(file, hx.Delivery{Mode: "whole"}, []int{chunk}, c.Armor, ring...)
+		if err != nil || !bytes.Equal(got, plain) {
+			return pbt.Failf("C05/reference-file-rejected", "a file written by the reference implementation (%v) decrypts for %s alone but not when %d unrelated identities precede it: %v", c.Recs, r, len(ring)-1, err)
+		}
 	}
 	return nil
+}
+
+// c05Foreign: one identity of each native type whose key is not among recs.
+func c05Foreign(p *hx.Pool, recs []hx.RecSpec) []age.Identity {
+	var out []age.Identity
+	for _, kind := range []string{"x25519", "ed25519", "rsa", "x25519"} {
+		n := map[string]int{"x25519": len(p.X25519), "ed25519": len(p.Ed), "rsa": 4}[kind]
+		for i := n - 1; i >= 0; i-- {
+			cand := hx.RecSpec{Kind: kind, Idx: i}
+			used := len(out) == 3 && i == n-1 // the second x25519 key differs from the first
+			for _, r := range recs {
+				if r.Kind == kind && r.Idx == i {
+					used = true
+				}
+			}
+			if !used {
+				out = append(out, p.Identity(cand))
+				break
+			}
+		}
+	}
+	return out
 }
 
 type corpusEntry struct {
